@@ -82,6 +82,78 @@ rules:
       config:
         ttl: 1m
         claims: '{"a": "b"}'
+- id: rule-three
+  match:
+    routes:
+      - path: /fuzz3/:a/:b
+  forward_to:
+    host: upstream:8080
+  execute:
+    - authenticator: jwt
+      config:
+        assertions:
+          issuers: [ "iss1" ]
+          audience: [ "aud1" ]
+          scopes: [ "read", "write" ]
+          allowed_algorithms: [ "ES384" ]
+          validity_leeway: 5s
+        cache_ttl: 1m
+        allow_fallback_on_error: true
+    - authenticator: introspect
+      config:
+        assertions:
+          issuers: [ "iss1" ]
+          scopes:
+            matching_strategy: wildcard
+            values: [ "read.*" ]
+        cache_ttl: 10s
+        allow_fallback_on_error: true
+    - authenticator: generic
+      config:
+        cache_ttl: 5s
+        allow_fallback_on_error: true
+    - authenticator: anon
+    - authorizer: cel_true
+      config:
+        expressions:
+          - expression: "Subject.ID != 'x'"
+            message: "no x"
+    - authorizer: remote
+      config:
+        expressions:
+          - expression: "true"
+        forward_response_headers_to_upstream: [ "X-A" ]
+        cache_ttl: 0s
+        values:
+          a: "{{ .Subject.ID }}"
+    - contextualizer: ctx_cont
+      config:
+        forward_headers: [ "X-B" ]
+        forward_cookies: [ "c" ]
+        payload: "p"
+        cache_ttl: 0s
+        continue_pipeline_on_error: true
+        values:
+          v: w
+    - finalizer: cookie
+      config:
+        cookies:
+          a: b
+    - finalizer: cc
+      config:
+        scopes: [ "s1" ]
+        cache_ttl: 0s
+        header:
+          name: X-Up
+          scheme: Bearer
+  on_error:
+    - error_handler: redirect
+      config:
+        to: http://login.local/x
+        code: 302
+    - error_handler: www
+      config:
+        realm: r
 `
 
 // confuse replaces one node of a YAML document by a value of another kind.
